@@ -30,6 +30,13 @@ type call struct {
 	TopoMTU          bool          // segment MTUs are those of Topo (unperturbed)
 	Src, Dst         addr.IA
 	Ups, Cores, Down []*seg.PathSegment
+	// Shared*: when set, the slices actually handed to Combine - one set of
+	// slices that a caller keeps and passes to consecutive lookups (as
+	// segfetcher.Pather does for several destinations). Ups/Cores/Down hold the
+	// same segments in the same order in slices of the call's own; the reference
+	// works on those.
+	SharedUps, SharedCores, SharedDown []*seg.PathSegment
+	SharedSeq                          int // position of the call in the sequence on the shared slices
 }
 
 // ---- witness (JSON) form ----
@@ -448,10 +455,23 @@ func workload(r *mon.Run, idx int, f func(*call)) error {
 				allUps = append(allUps, v.segs.Up[ia]...)
 			}
 		}
+		var sharedUps, sharedCores, sharedDown, pristineUps, pristineCores, pristineDown []*seg.PathSegment
+		sharedSeq := 0
 		for _, p := range pairs {
 			c := &call{Family: family, Variant: v.name, Topo: topo, TopoMTU: v.topoMTU, Src: p.s, Dst: p.d}
 			if v.all {
-				c.Ups, c.Cores, c.Down = shuffleSegs(rng, allUps), shuffleSegs(rng, v.segs.Core), shuffleSegs(rng, allUps)
+				if sharedUps == nil {
+					sharedUps, sharedCores, sharedDown = shuffleSegs(rng, allUps), shuffleSegs(rng, v.segs.Core), shuffleSegs(rng, allUps)
+					pristineUps = append([]*seg.PathSegment{}, sharedUps...)
+					pristineCores = append([]*seg.PathSegment{}, sharedCores...)
+					pristineDown = append([]*seg.PathSegment{}, sharedDown...)
+				}
+				c.Ups = append([]*seg.PathSegment{}, pristineUps...)
+				c.Cores = append([]*seg.PathSegment{}, pristineCores...)
+				c.Down = append([]*seg.PathSegment{}, pristineDown...)
+				c.SharedUps, c.SharedCores, c.SharedDown = sharedUps, sharedCores, sharedDown
+				c.SharedSeq = sharedSeq
+				sharedSeq++
 			} else {
 				u, co, d := v.segs.Lookup(p.s, p.d)
 				c.Ups, c.Cores, c.Down = shuffleSegs(rng, u), shuffleSegs(rng, co), shuffleSegs(rng, d)
